@@ -50,6 +50,11 @@ class CachingStreamWrapper(io.IOBase):
 
         read_from_raw = self._raw.read(n)
 
+        if read_from_raw is None:
+            # non-blocking raw stream has no data yet: hand over what
+            # the cache had (the caller deals with short reads)
+            return read_from_cache or None
+
         self._cache.write(read_from_raw)
 
         return read_from_cache + read_from_raw
